@@ -1114,3 +1114,58 @@ def canaries_debug(programs):
         Q.note = "CANARY (oracle expects another enum name) of " + P.pid
         out.append(Q)
     return out
+
+
+# ---------------------------------------------------------------------------------
+# C20 unions (padding-free, every bit pattern valid)
+UNIONS = [
+    ([("a", "[u8; 4]"), ("b", "u32")], 4, []),
+    ([("a", "u8"), ("b", "u8")], 1, []),
+    ([("a", "[u8; 8]"), ("b", "u64"), ("c", "[u16; 4]")], 8, []),
+    ([("a", "u16")], 2, []),
+    ([("a", "T0"), ("b", "[u8; 4]")], 4, ["T0: Copy"]),
+    ([("a", "[u8; 3]"), ("b", "u8")], 3, []),
+    ([("a", "i32"), ("b", "[i8; 4]"), ("c", "u32")], 4, []),
+    ([("a", "[u8; 16]"), ("b", "u128")], 16, []),
+    ([("a", "[u8; 2]"), ("b", "[u8; 2]")], 2, []),
+]
+
+
+def c20(tier, seed):
+    c = Counter()
+    out = []
+    form = 0
+    trait_sets = [["PartialEq(unsafe)"], ["Hash(unsafe)"], ["Clone", "Copy"], ["PartialEq(unsafe)", "Eq", "Hash(unsafe)", "Clone", "Copy"],
+                  ["Hash(unsafe)", "PartialEq(unsafe)"]]
+    for fields, size, generics in UNIONS:
+        for ts in trait_sets if tier != "quick" else trait_sets[:4]:
+            form += 1
+            fs = [Field(n, t) for n, t in fields]
+            focus = {t.split("(")[0] for t in ts} & {"PartialEq", "Hash", "Clone"}
+            P = Program(c.pid(), "union", "U", [Variant(None, "named", fs)], ts, generics=generics, inst={"T0": "u32"}, focus=focus,
+                        note="union %s size=%d traits=%s" % (fields, size, ts), union={"size": size})
+            P.tags["mk"] = ("pub fn mk<Z9: Src>(s: &mut Z9) -> TI { let mut b = [0u8; %d]; let mut i = 0; while i < %d { b[i] = s.u8(); i += 1; } "
+                            "unsafe { core::mem::transmute_copy::<[u8; %d], TI>(&b) } }" % (size, size, size))
+            P.tags["no_verus"] = "unions / raw byte views are outside Verus' subset"
+            P.tags["prop"] = "C20"
+            out.append(P)
+    # Default on unions (designated field), same contract as C08 but counted here
+    for P in [p for p in _c08(tier, seed) if p.kind == "union"]:
+        P.pid = c.pid()
+        P.tags["prop"] = "C20"
+        P.tags.setdefault("mk", "// Default takes no inputs")
+        P.tags["no_verus"] = "unions are outside Verus' subset"
+        out.append(P)
+    return out
+
+
+def canaries_c20(programs):
+    out = []
+    picks = [p for p in programs if "PartialEq" in p.focus and p.s("union", "size", 0) >= 4]
+    for P in picks[:1]:
+        Q = P.clone(); Q.pid = P.pid + "_canary"; Q.canary_of = P.pid
+        Q.sem["union"] = {"size": P.s("union", "size") - 1}       # oracle compares one byte too few
+        Q.tags["mk"] = P.tags["mk"]
+        Q.note = "CANARY (oracle compares one byte too few; size_ok must fail) of " + P.pid
+        out.append(Q)
+    return out
